@@ -543,6 +543,9 @@ class Blockwise(ArrayExpr):
                 # Literal argument
                 new_args.extend([arr, ind])
             elif shuffle_ind in ind:
+                if not hasattr(arr, "_meta"):
+                    # Non-array args (e.g., ArraySliceDep) can't be shuffled
+                    return None
                 # Find the axis in this input that corresponds to shuffle_ind
                 input_axis = ind.index(shuffle_ind)
                 if arr.shape[input_axis] != self.shape[axis]:
@@ -654,6 +657,9 @@ class Blockwise(ArrayExpr):
 
                 if arg_ind is None:
                     new_args.extend([arg, arg_ind])
+                elif not hasattr(arg, "_meta"):
+                    # Non-array args (e.g., ArraySliceDep) can't be sliced
+                    return None
                 else:
                     arg_slices = []
                     for pos, dim_idx in enumerate(arg_ind):
